@@ -216,6 +216,21 @@ func HC05Recorder() {
 	check := func() {
 		pkts := r.BuildFeedbackPacket()
 		var prevEnd int64 = -1
+		earlier := reported
+		// a recorded arrival may have left the history if it was reported by an earlier build and a
+		// later packet with a higher number arrived at least 500 ms after it (Record culls then)
+		cullable := func(j int) bool {
+			if !earlier[j] {
+				return false
+			}
+			for i := j + 1; i < n; i++ {
+				if times[i]-500000 >= times[j] && seqs[i] > seqs[j] {
+					vr.Cover("aged out of the history")
+					return true
+				}
+			}
+			return false
+		}
 		for _, p := range pkts {
 			fb, ok := p.(*rtcp.TransportLayerCC)
 			vr.Assert(ok, "feedback packets are TWCC packets")
@@ -240,22 +255,32 @@ func HC05Recorder() {
 			di := 0
 			for i := 0; i < int(fb.PacketStatusCount); i++ {
 				x := ub + int64(i)
-				firstIdx := -1
-				for j := n - 1; j >= 0; j-- {
-					if seqs[j] == x {
-						firstIdx = j
-					}
-				}
 				if st[i] == rtcp.TypeTCCPacketNotReceived {
-					vr.Assert(firstIdx < 0, "not received is reported only for numbers without a recorded arrival")
+					for j := 0; j < n; j++ {
+						vr.Assert(seqs[j] != x || cullable(j), "not received is reported only for numbers without a recorded arrival (in the 500 ms history)")
+					}
 					continue
 				}
-				vr.Assert(firstIdx >= 0, "received is reported only for recorded numbers")
 				vr.Assert(di < len(fb.RecvDeltas), "one delta per received status")
-				if di < len(fb.RecvDeltas) && firstIdx >= 0 {
+				if di < len(fb.RecvDeltas) {
 					ref += fb.RecvDeltas[di].Delta
-					e := ref - times[firstIdx]
-					vr.Assert(e >= -125 && e <= 125, "decoded arrival within 125 us of the first recorded arrival")
+					// the first recorded arrival of x that is still in the history: every earlier copy
+					// must already have been reported and have aged out of the 500 ms window
+					match, any := false, false
+					for j := 0; j < n && !match; j++ {
+						if seqs[j] != x {
+							continue
+						}
+						any = true
+						e := ref - times[j]
+						if e >= -125 && e <= 125 {
+							match = true
+						} else if !cullable(j) {
+							break
+						}
+					}
+					vr.Assert(any, "received is reported only for recorded numbers")
+					vr.Assert(match, "decoded arrival within 125 us of the first recorded arrival still in the history")
 					for j := 0; j < n; j++ {
 						if seqs[j] == x {
 							reported[j] = true
@@ -272,28 +297,32 @@ func HC05Recorder() {
 		if len(pkts) > 0 {
 			vr.Cover("feedback built")
 		}
+		if len(pkts) > 1 {
+			vr.Cover("build split into several packets")
+		}
 	}
 	for i := 0; i < nrec; i++ {
 		off := int64(vr.Concretize(vr.NondetInt(0, span)))
 		steps := [4]int64{0, 130, 20000, 70000}
-		now += steps[vr.Concretize(vr.NondetInt(0, 3))]
+		nsteps := 4
+		if vr.Param("steptab", 0) == 1 {
+			// gaps beyond what one feedback packet can express (int16 x 250 us): the build splits
+			steps = [4]int64{130, 9000000, 0, 0}
+			nsteps = 2
+		}
+		now += steps[vr.Concretize(vr.NondetInt(0, nsteps-1))]
 		x := base + off
 		if i == 0 {
 			vr.Assume(uint16(x) >= uint16(span+1)) // unwrapper floor-at-zero corner (see C20) excluded
 		}
 		r.Record(9, uint16(x), now)
-		dup := false
 		for j := 0; j < n; j++ {
 			if seqs[j] == x {
-				dup = true
+				vr.Cover("duplicate ignored")
 			}
 		}
-		if !dup {
-			seqs[n], times[n], reported[n] = x, now, false
-			n++
-		} else {
-			vr.Cover("duplicate ignored")
-		}
+		seqs[n], times[n], reported[n] = x, now, false
+		n++
 		if i+1 == buildAt {
 			check()
 		}
